@@ -492,7 +492,9 @@ def _perturbations(req: dict[str, Any]) -> list[str]:
     return p
 
 
-def _judge_wellframed(live: _Live, data: bytes, header_stream: bool, nonce: int, out: Outcome, what_req: str) -> None:
+def _judge_wellframed(
+    live: _Live, data: bytes, header_stream: bool, nonce: int, out: Outcome, what_req: str, sig: str = "plain"
+) -> None:
     obs: list[Any] = []
     res = live.conn.call(lambda: _exchange(live, data, header_stream, obs))
     problem: str | None = None
@@ -518,7 +520,7 @@ def _judge_wellframed(live: _Live, data: bytes, header_stream: bool, nonce: int,
         first = next(e[1] for e in obs if e[0] == "exception")
         key = "connection_ended_after_error_reply/" + first.split(":", 1)[0].strip()[:40]
     else:
-        key = "no_reply_or_desync"
+        key = "no_reply_or_desync/" + sig
     out.fail(key, f"{what_req}: {problem}; serve loop {how}")
 
 
@@ -541,7 +543,8 @@ def run_wellframed(case: dict[str, Any]) -> Outcome:
             out.label("shm_name=" + req["md"]["shm_name"])
         if req["md"]["shm_off"] != "absent":
             out.label("shm_offset=" + req["md"]["shm_off"])
-        _judge_wellframed(live, data, m in _HEADER_STREAMS, case["nonce"], out, f"request {req!r} on {case['t']}")
+        sig = "shm_pointer_request" if req["rows"] == 0 and req["md"]["shm_off"] != "absent" else "plain_request"
+        _judge_wellframed(live, data, m in _HEADER_STREAMS, case["nonce"], out, f"request {req!r} on {case['t']}", sig)
         out.note = {"bytes": len(data), "perturbed": pert}
     finally:
         live.close()
